@@ -129,7 +129,13 @@ def check_interval(vec, a, b):
         name_of = lambda o: o.name if isinstance(o, _E) else o["name"]
         got = outcome(lambda: [([name_of(o) for o in c], sc) for c, sc in f(objs, vec, a, b)])
     else:
-        got = outcome(lambda: f(elems, vec, a, b))
+        # the argument lists are the caller's: once the result is there the caller re-uses them for something else; a
+        # later search with equal scores must not depend on that
+        own_scores, own_elems = list(vec), list(elems)
+        got = outcome(lambda: [(list(c), sc) for c, sc in f(own_elems, own_scores, a, b)])
+        for k in range(len(own_scores)):
+            own_scores[k] = own_scores[k] * 3 + 1
+        own_elems.reverse()
     sums = {}
     for r in range(1, len(vec) + 1):
         for idx in itertools.combinations(range(len(vec)), r):
